@@ -117,11 +117,15 @@ type c02Stats struct {
 
 // c02Doc prints doc under every choice vector with ≤d deviations and compares with the reference HTML.
 func c02Doc(s *core.Sub, cv *core.Conv, doc []Blk, d int, label string) int64 {
+	return c02DocPrefer(s, cv, doc, d, label, nil)
+}
+
+func c02DocPrefer(s *core.Sub, cv *core.Conv, doc []Blk, d int, label string, prefer map[string]int) int64 {
 	want := RefHTML(doc)
 	var n int64
 	var rec func(over map[int]int, from, left int)
 	rec = func(over map[int]int, from, left int) {
-		md, log := PrintMarkdown(doc, over)
+		md, log := PrintMarkdownPrefer(doc, over, prefer)
 		n++
 		got, ok := mustConvert(s, cv, []byte(md))
 		if ok && normHTML(string(got)) != normHTML(want) {
@@ -445,6 +449,66 @@ func runC02(r *core.Run) {
 		s.Extra["traces_validated_against_impl"] = s.Evals.Load()
 		s.Bound = fmt.Sprintf("items≤2(+break) × deviations≤%d", dd)
 		s.Done()
+	}
+
+	// tab-spelled indentation: the canonical spelling of this sub-check writes tabs wherever a tab reaches the same column
+	{
+		var tdocs [][]Blk
+		p, q, c := para(w("p")), para(w("q")), codeBlk("", "c")
+		contents := [][]Blk{{p}, {p, c}, {p, codeBlk("", "c\n\n d")}, {p, q}, {p, quote(q)}, {p, quote(c)}, {p, ulist(true, []Blk{q})}, {p, ulist(false, []Blk{q, c})}, {p, olist(1, false, []Blk{q, c})},
+			{heading(1, w("h")), c}, {p, c, q}, {p, ulist(false, []Blk{q, ulist(false, []Blk{para(w("r")), c})})}}
+		for _, x := range contents {
+			tdocs = append(tdocs, []Blk{ulist(false, x, []Blk{para(w("b"))})}, []Blk{olist(1, false, x, []Blk{para(w("b"))})}, []Blk{olist(7, false, x)}, []Blk{ulist(false, x), para(w("z"))})
+			if len(x) == 2 && x[1].K == bList {
+				tdocs = append(tdocs, []Blk{ulist(true, x)}, []Blk{olist(1, true, x, []Blk{para(w("b"))})})
+			}
+			tdocs = append(tdocs, []Blk{quote(x...)}, []Blk{quote(ulist(false, x))})
+		}
+		tdocs = append(tdocs, []Blk{c}, []Blk{codeBlk("", "c\n\td")}, []Blk{heading(1, w("h")), c, para(w("z"))})
+		{
+			var keep [][]Blk
+			var okTree func(bs []Blk) bool
+			okTree = func(bs []Blk) bool {
+				for _, b := range bs {
+					if !validList(b) || !okTree(b.Kids) {
+						return false
+					}
+					for _, it := range b.Items {
+						if !okTree(it) {
+							return false
+						}
+					}
+				}
+				return true
+			}
+			for _, d := range tdocs {
+				if okTree(d) {
+					keep = append(keep, d)
+				}
+			}
+			tdocs = keep
+		}
+		for _, ms := range []int{2, 1, 3, 0} {
+			prefer := map[string]int{"tab-indent": 1, "tab-after-marker": 1, "code-form": 7, "marker-spaces": ms}
+			s := r.Sub(fmt.Sprintf("tabs/marker-spaces=%d", ms+1), fmt.Sprintf("%d list/quote/code documents whose canonical spelling here uses %d space(s) after the list marker and a TAB wherever a tab reaches the same column (after the marker, as continuation indentation of a 4-column item, as indented-code prefix at a column divisible by 4), with every vector of ≤%d deviations from that canonical spelling; output must equal the reference renderer's HTML", len(tdocs), ms+1, d))
+			core.ForEachIndex(len(tdocs), core.Workers(), func(wk int) func(int) {
+				cv := core.NewConv(cfg)
+				return func(i int) {
+					n := c02DocPrefer(s, cv, tdocs[i], d, "tabs", prefer)
+					s.Evals.Add(n)
+					s.States.Add(1)
+					if i%(len(tdocs)/4+1) == 0 {
+						md, _ := PrintMarkdownPrefer(tdocs[i], nil, prefer)
+						s.AddSample(core.Q([]byte(md)))
+					}
+					md, _ := PrintMarkdownPrefer(tdocs[i], nil, prefer)
+					s.Distinct(core.Hash([]byte(md)))
+				}
+			}, r.Expired)
+			s.Transitions.Store(s.Evals.Load())
+			s.Bound = fmt.Sprintf("%d documents × deviations≤%d", len(tdocs), d)
+			s.Done()
+		}
 	}
 
 	// block-structure documents
